@@ -349,6 +349,8 @@ def cases(tier, seed, spec):
         yield {'kind': 'same-labels', 'n': k}
     yield {'kind': 'siblings', 'n': 0}
     yield {'kind': 'siblings', 'n': 1}
+    for k in range(4 if tier == 'quick' else 40):
+        yield {'kind': 'unrelated-siblings', 'n': k}
     yield from size_sweep(tier)
     # beyond the 4 300-digit limit of int <-> str conversion (14 285 bits) on the property axis
     yield from (c for c in gen.giant(seed, 4 if tier == 'quick' else 12, only='wide') if 14300 < len(c['properties']) < 20000)
@@ -486,6 +488,85 @@ def run_siblings(concepts, case, spec):
                 break
 
 
+def run_unrelated_siblings(concepts, case, spec):
+    """Pre-forked sibling processes build contexts with DIFFERENT labels and sizes and pickle (context, lattice);
+    this process builds one of its own after the forks (same heap state: the class addresses that travel in
+    the pickles coincide with the local ones) and then loads them all.  Every loaded pair and the local one
+    is judged structurally and through the order / relation predicates of all ordered pairs of concepts."""
+    from .c08 import PREDICATES
+    work = spec['workdir']
+    rng = random.Random(f"{spec['seed']}/c11/unrelated/{case['n']}")
+    specs = []
+    for k in range(3):
+        n, m = 3 + k + case['n'] % 2, 3 + (k * 2 + case['n']) % 3
+        rows = [rng.getrandbits(m) for _ in range(n)]
+        specs.append(([f'w{k}_{i}' for i in range(n)], [f'q{k}_{j}' for j in range(m)], rows))
+    sys.stdout.flush()
+    paths = []
+    for k, (o, p, rows) in enumerate(specs[1:]):
+        path = os.path.join(work, f"unrel{case['n']}_{k}.pkl")
+        paths.append(path)
+        pid = os.fork()
+        if pid == 0:
+            code = 1
+            try:
+                c = concepts.Context(o, p, [tuple(bool(r >> j & 1) for j in range(len(p))) for r in rows])
+                with open(path, 'wb') as f:
+                    pickle.dump((c, c.lattice), f, protocol=2 + k)
+                code = 0
+            finally:
+                os._exit(code)
+        _, status = os.waitpid(pid, 0)
+        if status != 0:
+            COL.harness_error(f'sibling child exited with {status}')
+            return
+    o, p, rows = specs[0]
+    local = call(concepts.Context, o, p, [tuple(bool(r >> j & 1) for j in range(len(p))) for r in rows])
+    if local is RAISED:
+        return
+    pairs = [(local, common.get_lattice(local))]
+    if rng.random() < .5:
+        a, b = list(pairs[0][1])[0], list(pairs[0][1])[-1]
+        call(a.complement_of, b), call(a.orthogonal_to, b), call(a.subcontrary_with, b)      # asked before the loads, too
+    for path in paths:
+        with open(path, 'rb') as f:
+            back = call(pickle.load, f)
+        if back is RAISED:
+            COL.violation('siblings', 'unrelated-sibling-pickles:load-raised', 'a (context, lattice) pair', 'exception')
+            return
+        pairs.append(back)
+    COL.count('unrelated_sibling_histories')
+    cap = CAP[spec['tier']]
+    for (c, lat), (o, p, rows) in zip(pairs, specs):
+        sh = Shadow(o, p, rows)
+        COL.count('judged_unpickled')
+        if lat is RAISED or not same_triple('unrelated-sibling', c, sh):
+            continue
+        with core.monitor_code():
+            judge_lattice(lat, c, sh, cap, 'unrelated_sibling')
+        members = list(lat)
+        ALL = (1 << sh.n) - 1
+        bad = None
+        for x in members:
+            ex, ix = sh.omask(x.extent), sh.pmask(x.intent)
+            for y in members:
+                ey, iy = sh.omask(y.extent), sh.pmask(y.intent)
+                for name, f in PREDICATES.items():
+                    got = call(getattr(x, name), y)
+                    COL.count('sibling_predicates_judged')
+                    if got is RAISED or bool(got) != bool(f(ex, ey, ix, iy, ALL)):
+                        bad = (name, list(x.extent), list(y.extent), None if got is RAISED else bool(got))
+                        break
+                if bad:
+                    break
+            if bad:
+                break
+        if bad:
+            COL.violation('siblings', f'unrelated-sibling-pickles:{bad[0]}-differs-from-the-extents',
+                          {'objects': list(o), 'x': bad[1], 'y': bad[2]}, bad[3])
+    COL.nontrivial('unrelated-siblings', case['n'])
+
+
 def run_giant(concepts, case, spec):
     """Tens of thousands of members on one axis: every medium once, the reloaded triple only (the
     structural judgement of such lattices is the business of the lattice checks)."""
@@ -579,6 +660,8 @@ def _failed_persistence_first(concepts, ctx, lat, rng, work):
 def run_case(concepts, case, spec):
     if case.get('kind') == 'siblings':
         return run_siblings(concepts, case, spec)
+    if case.get('kind') == 'unrelated-siblings':
+        return run_unrelated_siblings(concepts, case, spec)
     if case.get('kind') == 'same-labels':
         return run_same_labels(concepts, case, spec)
     if case['fam'].startswith('HUGEGIANT'):
